@@ -187,6 +187,10 @@ func (r *replayer) replay(hs harnessSpec, tier string, v sym.Violation) (string,
 		ok = timedOut || strings.Contains(out, "stack overflow") || strings.Contains(out, "goroutine stack exceeds")
 		default:
 			ok = strings.Contains(out, fmt.Sprintf("VERIF-ASSERT-FAILED harness=%s id=%s\n", hs.Name, v.Assert))
+			if !ok && hs.Opts["fatal"] == "violation" {
+				// harnesses of "the process survives every request": a native replay that kills the process or never returns confirms the counterexample
+				ok = timedOut || strings.Contains(out, "stack overflow") || strings.Contains(out, "goroutine stack exceeds") || strings.Contains(out, "fatal error:")
+			}
 		}
 	}
 	if !ok {
@@ -391,6 +395,9 @@ func replayStored(path string) int {
 		reproduced = timedOut || strings.Contains(out, "stack overflow") || strings.Contains(out, "goroutine stack exceeds")
 	default:
 		reproduced = strings.Contains(out, fmt.Sprintf("VERIF-ASSERT-FAILED harness=%s id=%s\n", hs.Name, rec.Assertion))
+		if !reproduced && hs.Opts["fatal"] == "violation" {
+			reproduced = timedOut || strings.Contains(out, "stack overflow") || strings.Contains(out, "goroutine stack exceeds") || strings.Contains(out, "fatal error:")
+		}
 	}
 	if reproduced {
 		fmt.Printf("VIOLATION property=%s replay=%s\n", rec.Property, path)
